@@ -7,8 +7,8 @@
 (* process (updog create) was SIGKILLed at an unknown instant: any number of steps.        *)
 EXTENDS UpdogCrash, TraceBase
 tvars == <<cvars, l>>
-TInit == TraceBaseInit /\ cfg = [total |-> 0, batch |-> 1, big |-> FALSE] /\ file = NoFile /\ pc = "start" /\ alive = TRUE
-TBegin == /\ IsEvent("Begin") /\ cfg' = [total |-> Ev.total, batch |-> Ev.batch, big |-> Ev.big]
+TInit == TraceBaseInit /\ cfg = [total |-> 0, batch |-> 1, big |-> FALSE, occupied |-> FALSE] /\ file = NoFile /\ pc = "start" /\ alive = TRUE
+TBegin == /\ IsEvent("Begin") /\ cfg' = [total |-> Ev.total, batch |-> Ev.batch, big |-> Ev.big, occupied |-> Ev.occupied]
           /\ file' = NoFile /\ pc' = "start" /\ alive' = TRUE
 Proj == [exists |-> Ev.exists, bucket |-> Ev.bucket, header |-> Ev.header, nv |-> Ev.nv]
 \* the snapshot is what exactly one commit action produces from the previous snapshot
@@ -27,6 +27,10 @@ TCrashOpen == /\ IsEvent("CrashOpen")
               /\ Ev.outcome = ExpectedOpen(file)                \* never panic / hang, never accepted when incomplete
               /\ (Ev.outcome = "opened" => (Ev.same /\ file.nv = cfg.total))
               /\ UNCHANGED cvars
-TNext == TBegin \/ TSnap \/ TKill \/ TCrashOpen
+\* the output path was occupied by a complete index: the writer's Flush reports an error, no transaction of it committed
+\* (no Snap event can follow: CreateExcl is disabled), the occupant's bytes are unchanged
+TRefused == /\ IsEvent("Refused") /\ Refuse
+            /\ Ev.failed /\ Ev.commits = 0 /\ Ev.unchanged
+TNext == TBegin \/ TSnap \/ TKill \/ TCrashOpen \/ TRefused
 TSpec == TInit /\ [][TNext]_tvars
 =============================================================================
